@@ -17,6 +17,8 @@ import time
 VERIF = os.path.dirname(os.path.dirname(os.path.abspath(__file__)))
 SPEC = os.path.join(VERIF, "spec")
 REPO = os.environ.get("VERIF_REPO", "/repo")
+# where evidence/ and replays/ are written: /verif, except when a tool evaluates a scratch tree (tools/seedmatrix.py --tree)
+OUT = os.environ.get("VERIF_OUT", VERIF)
 PY = "/venv/bin/python"
 NCPU = min(16, os.cpu_count() or 1)
 
@@ -270,7 +272,7 @@ class Run(object):
         self.rule = ""
         self.exhaustive = False
         self.max_violation_lines = 25
-        os.makedirs(os.path.join(VERIF, "replays", pid), exist_ok=True)
+        os.makedirs(os.path.join(OUT, "replays", pid), exist_ok=True)
 
     # -- TLC -------------------------------------------------------------------------------
     def tlc(self, module, cfg, expect_ok=True, shards=None, **kw):
@@ -335,7 +337,7 @@ class Run(object):
         if key is not None:
             self.distinct.add(key)
         n = len(self.violations)
-        path = os.path.join(VERIF, "replays", self.pid, "violation_{:03d}.json".format(n))
+        path = os.path.join(OUT, "replays", self.pid, "violation_{:03d}.json".format(n))
         if n < 200:
             with open(path, "w") as f:
                 json.dump(
@@ -400,8 +402,8 @@ class Run(object):
         }
         # X.. = specification coverage beyond the listed properties: its record is kept apart from the properties' evidence
         sub = "evidence" if self.pid.startswith("C") else "evidence_extra"
-        os.makedirs(os.path.join(VERIF, sub), exist_ok=True)
-        path = os.path.join(VERIF, sub, self.pid + ".json")
+        os.makedirs(os.path.join(OUT, sub), exist_ok=True)
+        path = os.path.join(OUT, sub, self.pid + ".json")
         with open(path + ".tmp", "w") as f:
             json.dump(ev, f, indent=1, default=repr, sort_keys=True)
         os.replace(path + ".tmp", path)
